@@ -137,8 +137,10 @@ func (r *FederationRequest) HTTPRequest() (*http.Request, error) {
 		)
 	}
 
-	// Sanity check that the request fields will round-trip properly.
-	if httpReq.URL.RequestURI() != r.fields.RequestURI {
+	// Sanity check that the request fields will round-trip properly. (net/url
+	// passes a blank in the query through as it is; a request line cannot
+	// carry one.)
+	if httpReq.URL.RequestURI() != r.fields.RequestURI || strings.ContainsAny(r.fields.RequestURI, " \t\r\n") {
 		return nil, fmt.Errorf(
 			"gomatrixserverlib: Request URI didn't encode properly. Wanted %q. Got %q",
 			r.fields.RequestURI, httpReq.URL.RequestURI(),
